@@ -6,7 +6,7 @@ import re
 
 from vlib import big, unbig
 
-SCHEMA_DIR = '/repo/pytoniq_core/tl/schemas'
+SCHEMA_DIR = os.environ.get('VERIF_REPO', '/repo') + '/pytoniq_core/tl/schemas'
 BASE = {'int': 'int', 'long': 'long', '#': 'nat', 'Bool': 'Bool', 'int128': 'int128', 'int256': 'int256', 'string': 'string',
         'bytes': 'bytes', 'true': 'true'}
 BUILTIN_NAMES = {'int', 'long', 'double', 'string', 'object', 'function', 'bytes', 'true', 'boolTrue', 'boolFalse', 'vector', 'int128', 'int256'}
